@@ -409,3 +409,16 @@ PROPS['C09']['quick'] = PROPS['C09']['quick'] + [tspec('H_sig_real', real_typest
 PROPS['C09']['thorough'] = PROPS['C09']['thorough'] + [tspec('H_sig_real', real_typestring=1)]
 PROPS['C09']['covers']['H_sig_real'] = ['dup', 'nodup']
 PROPS['C09']['bounds_text'] += '; H_sig_real: 2..3 parameters / fields drawn from 14 real go/types types including identical-but-differently-spelled pairs (byte/uint8, rune/int32, []byte/[]uint8, func types differing in parameter names, any/interface{}) and similar-but-distinct ones, oracle types.Identical (go/types run from its own SSA)'
+
+
+def cli_e2e():
+    def fn(pid, tier, seed, sp):
+        import cli_e2e as E
+        return E.run_cli_e2e(pid, tier, seed, sp)
+    return dict(kind='custom', fn=fn, label='cli_e2e', entry='cli_e2e', params={})
+
+
+for _p in ('C17', 'C18'):
+    for _t in ('quick', 'thorough'):
+        PROPS[_p][_t] = PROPS[_p][_t] + [cli_e2e()]
+    PROPS[_p]['bounds_text'] += '; supplement (enumerated runs of the real binary, not solver-decided): ~50 expectations on a three-package module (good / no injectors / failing): exit codes of gen, the default-command form, diff, check, show; file-system footprint; header and prefix; six histories (stale garbage, failed generation, other variant, deletion, hand edit, other tags) after which gen must leave the fresh-checkout file'
